@@ -173,6 +173,18 @@ def exc_site(exc):
     return site
 
 
+def exc_origin(exc):
+    """'subpackage/file.py:function' of the innermost repository frame (None if outside the package)."""
+    tb = exc.__traceback__
+    site = None
+    while tb is not None:
+        fn = tb.tb_frame.f_code.co_filename
+        if '/copulas/' in fn and '/vmon/' not in fn:
+            site = fn.split('/copulas/')[-1] + ':' + tb.tb_frame.f_code.co_name
+        tb = tb.tb_next
+    return site
+
+
 def exc_mech(exc):
     return 'raises:%s@%s' % (type(exc).__name__, exc_site(exc))
 
